@@ -45,6 +45,10 @@ class InjectedFault(RuntimeError):
     pass
 
 
+class SetupFailed(RuntimeError):
+    pass
+
+
 # ------------------------------------------------------------------------------------------
 # API wrappers: count / observe / fail wherever SQL is executed.  DuckDB: the API's
 # _execute_sql_against_backend.  SQLite: every cursor of the connection (the API method, the
@@ -340,7 +344,7 @@ SN = ["kim", "lee", "ray", "fox", "kin", "les"]
 
 
 def gen_config(rng, backend, link_type, retain, idx):
-    n = rng.randint(14, 18)
+    n = rng.randint(14, 18) if link_type == "dedupe_only" else rng.randint(22, 26)
     rows = []
     for i in range(n):
         rows.append({"unique_id": i, "first_name": rng.choice(FN), "surname": rng.choice(SN),
@@ -771,15 +775,21 @@ class Runner:
 
     # -- one run of a scenario on a fresh linker
     def fresh(self, cfg, sc):
-        lk, api, _ = build(cfg)
-        aux = sc["setup"](lk, cfg) if sc["setup"] else {}
+        try:
+            lk, api, _ = build(cfg)
+            aux = sc["setup"](lk, cfg) if sc["setup"] else {}
+        except Exception as e:      # noqa: BLE001  - e.g. a trained u of 0 makes every predict() raise on this data
+            raise SetupFailed(f"{type(e).__name__}: {str(e)[-160:]}") from e
         return lk, api, aux
 
     def reference(self, cfg, sc):
         key = (cfg["id"], sc["name"] if sc["setup"] else None)
         if key not in self.ref_cache:
-            lk, api, aux = self.fresh(cfg, sc)
-            self.ref_cache[key] = later_ops(lk, cfg)
+            try:
+                lk, api, aux = self.fresh(cfg, sc)
+                self.ref_cache[key] = later_ops(lk, cfg)
+            except Exception as e:      # noqa: BLE001  - the later operations fail on this configuration by themselves
+                self.ref_cache[key] = ("reference raises", f"{type(e).__name__}: {str(e)[-160:]}")
         return self.ref_cache[key]
 
     def observe(self, cfg, sc, trace):
@@ -821,10 +831,14 @@ class Runner:
         changed = snap_diff(before, after)
         detail = {f: {"before": before[f], "after": after[f]} for f in changed if f != "FCoreModel"}
         later_msg = None
+        ref = self.reference(cfg, sc)
         try:
-            got = later_ops(lk, cfg)
-            ref = self.reference(cfg, sc)
-            self.stats["later_results_compared"] += 1
+            if isinstance(ref, tuple):
+                self.stats["skipped_later_reference_raises"] = self.stats.get("skipped_later_reference_raises", 0) + 1
+                got, ref = {}, {}
+            else:
+                got = later_ops(lk, cfg)
+                self.stats["later_results_compared"] += 1
             for name in ref:
                 m = rows_equal(got[name], ref[name])
                 if m:
@@ -852,6 +866,13 @@ class Runner:
                                                       site=site, flt=flt, changed=changed, oracle_len=len(oracle))})
 
     def run_scenario(self, cfg, sc, stride=1, offset=0):
+        try:
+            self._run_scenario(cfg, sc, stride, offset)
+        except SetupFailed as e:
+            self.ctx.notes.append(f"skipped {sc['name']} on {cfg['id']}: building the linker / the scenario's setup raises: {e}")
+            self.ctx.hist("skipped_setup_failed", sc["name"])
+
+    def _run_scenario(self, cfg, sc, stride=1, offset=0):
         ctx = self.ctx
         trace = self.traces.get(sc["op"])
         modelled = isinstance(trace, T.Trace)
